@@ -37,6 +37,7 @@ RULE += (" Also: bodies ending with a BaseException that is no Exception while t
 RULE += (' Also: generator managers taking a single coroutine function (a hook) as their argument.')
 RULE += (' Also: the _recreate_cm hook as a classmethod or set on the instance.')
 RULE += (' Also: decorated methods called through an instance.')
+RULE += (' Also: class managers that also spell out (and refuse) the synchronous protocol.')
 ASSUMPTIONS = ["class-based ContextDecorator instances are shared between calls (documented default of _recreate_cm)"]
 EXHAUSTIVE_SUBSPACES = 'every scenario counted in scenarios_explored_exhaustively had ALL its interleavings executed'
 EXHAUSTIVE = {"quick": False, "thorough": False}
@@ -204,6 +205,15 @@ def execute(case, choose, cancel_at=None):
                 CTX.foreign.append("the decorator awaited the manager object instead of entering it")
                 return "an unmanaged resource"
                 yield  # pragma: no cover
+
+            def __enter__(self):
+                # (the class ALSO spells out the synchronous protocol - to refuse it, as async resources often do)
+                CTX.foreign.append("the decorator used the synchronous protocol of an asynchronous manager")
+                raise TypeError("use 'async with'")
+
+            def __exit__(self, et, exc, tb):
+                CTX.foreign.append("the decorator used the synchronous protocol of an asynchronous manager")
+                return False
 
             async def __aenter__(self):
                 if self.busy:
